@@ -1,4 +1,5 @@
 import LekkerVerif.Model.DriverBase
+import LekkerVerif.Model.DriverStack
 /-! Driver ops.  Each op runs executable definitions of the model on the decoded request. -/
 open Lean
 
@@ -126,6 +127,7 @@ def dispatch (j : Json) : Json :=
   match getStr j "op" with
   | some "star" => opStar j
   | some "solve" => opSolve j
+  | some "stack" => opStack j
   | some "ping" => Json.mkObj [("ok", true)]
   | _ => errJson "unknown-op"
 
